@@ -19,9 +19,14 @@ ALPHABET = '(),." \nacdefgimnoprsvxbz1#'
 BINOPS = T.BINOPS
 
 
+E1, E2 = 0xC3, 0xA9        # the two bytes of 'é': one non-ASCII, two-byte character in the alphabet (a &str is always valid UTF-8)
+
 def sym_input(e, L, name='in'):
     bs = [z3.BitVec('%s%d' % (name, i), 8) for i in range(L)]
-    for b in bs: e.assume(z3.Or(*[b == ord(ch) for ch in ALPHABET]))
+    for i, b in enumerate(bs):
+        e.assume(z3.Or(*([b == ord(ch) for ch in ALPHABET] + [b == E1, b == E2])))
+        e.assume(z3.Implies(b == E1, bs[i + 1] == E2 if i + 1 < L else z3.BoolVal(False)))
+        e.assume(z3.Implies(b == E2, bs[i - 1] == E1 if i > 0 else z3.BoolVal(False)))
     return bs, SymStr(bs)
 
 
@@ -110,7 +115,7 @@ def real_ast(e, v):
     return ({'And': 'and', 'Or': 'or', 'Imp': 'imp', 'Xor': 'xor', 'Iff': 'iff'}[k], real_ast(e, v.f[0]), real_ast(e, v.f[1]))
 
 
-def text_of(m, bs): return ''.join(chr(mint(m, b)) for b in bs)
+def text_of(m, bs): return bytes(mint(m, b) for b in bs).decode('utf-8', 'replace')
 
 
 def formula_job(e, p):
@@ -242,7 +247,6 @@ def validate(ctx, tier, seed):
             k = rng.randrange(len(t)); texts.append(t[:k] + rng.choice(['', '(', ')', ',', '.', 'x', ' ']) + t[k + 1:])
     mism = []; cnt = 0
     for t in texts:
-        if not t.isascii(): continue
         out = nat.call({'cmd': 'parse', 'text': t, 'level': 'file'})
         eng.reset_path([]); eng.path_violations = []
         try:
@@ -282,7 +286,7 @@ def spec(ctx, tier, seed):
     jobs.append(Job('canary', mod, 'formula_job', {'L': 3, 'canary': True}, stop_after_violations=1, canary=True))
     return {'jobs': jobs, 'level': 'model_checking', 'allowed_status': ('ok', 'panic'),
             'assumptions': ASSUMPTIONS + ['nom combinators (tag, take_until, alphanumeric1, multispace0, alt, many1, all_consuming, value, preceded, terminated, delimited, separated_pair) '
-                                          'are models of their documented contracts (validated differentially on concrete texts every run)', 'inputs are ASCII'],
-            'bounds': 'formula level: all byte strings of length <= %d over the %d-symbol alphabet %r; file level: all strings of length 5..%d, plus a fixed first fact followed by %d symbolic bytes; every connective prefix op( / ac( / s( followed by 5-7 (quick) or 7-9 (thorough) symbolic bytes'
+                                          'are models of their documented contracts (validated differentially on concrete texts every run)', 'inputs are valid UTF-8 over the stated alphabet'],
+            'bounds': 'formula level: all byte strings of length <= %d over the %d-symbol alphabet %r plus the two-byte character e-acute; file level: all strings of length 5..%d, plus a fixed first fact followed by %d symbolic bytes; every connective prefix op( / ac( / s( followed by 5-7 (quick) or 7-9 (thorough) symbolic bytes'
                       % (max(LF), len(ALPHABET), ALPHABET, 8 if tier == 'quick' else 10, 6 if tier == 'quick' else 8),
-            'outside': 'longer inputs; bytes outside the alphabet (other letters/digits behave like b, z, 1; non-ASCII); nom internals; the CLI / web halves of the statement (exit status, parse_only = Error)'}
+            'outside': 'longer inputs; bytes outside the alphabet (other letters/digits behave like b, z, 1; other non-ASCII characters like e-acute); nom internals; the CLI / web halves of the statement (exit status, parse_only = Error)'}
